@@ -13,12 +13,22 @@ that path in a real .msg).  EML and mbox are not carriers: they return an HTML-o
 Oracle (parent, pure function of ground truth + observation): tokenise get_full_text(), the unit
 texts and the table cells with the fixed token regex.  r token anywhere (also headings/links/title)
 => leaked; b token nowhere => preceding-text-lost; v token nowhere => following-text-lost; visible
-token more than once in the full text (or more than once in the tables) => duplicated.  Whitespace,
-gluing and decoration are not judged; "extracted" means full text OR table cell (the EPUB parser keeps
-cell text in the chapter's tables only).
+token more than once in the full text (or more than once in the tables) => duplicated.  "Extracted"
+means full text OR table cell (the EPUB parser keeps cell text in the chapter's tables only).
+
+"Takes nothing else with it" is judged against a reference: the same document with every removable
+construct deleted (Body.render(strip=True)), pushed through the same carrier with the same parameters.
+The visible tokens of the real document must come out in the same order as in the reference
+(=> reordered), in the same place, full text vs. table cell, as often (=> placement-changed) and two
+visible tokens must not be glued together where the reference keeps them apart (=> glued).  Nothing
+absolute is demanded about white space, order or decoration: only that removing the element changed
+nothing else.  Every (construct name x position) body and a seeded share of all others get a reference.
 
 Known mechanisms: a body is clean or carries exactly one risky construct and is run together with
-its control twin (same body, benign form).  Key = C17:<carrier>:<risky feature|clean>:<symptom>.
+its control twin (same body, benign form).  Risky families (vlib/gen/htmlgrammar.py RISKY): bare void
+child / bare <embed> / stray end tag / unclosed start tag inside a removed element, the latter two
+also with the tag of ANOTHER removable element (</iframe> inside noscript, <object> left open inside
+iframe), and a document that ends inside an unterminated comment / declaration / PI (twin: terminated).  Key = C17:<carrier>:<risky feature|clean>:<symptom>.
 """
 from __future__ import annotations
 
@@ -52,6 +62,19 @@ def carrier_bytes(carrier: str, doc: str, params: dict) -> bytes:
     if carrier == "epub":
         return G.render_epub(doc, params)
     raise ValueError(carrier)
+
+
+def sequence(text: str) -> tuple[list, list]:
+    """Tokens of ``text`` in order of appearance, and the adjacent pairs with nothing at all between them."""
+    from vlib.gen import htmlgrammar as G
+
+    seq, glued, prev = [], [], None
+    for m in G.TOKEN_RE.finditer(text):
+        if prev is not None and prev.end() == m.start():
+            glued.append([prev.group(), m.group()])
+        seq.append(m.group())
+        prev = m
+    return seq, glued
 
 
 def work(case: dict) -> dict:
@@ -89,6 +112,8 @@ def work(case: dict) -> dict:
     except Exception as e:
         obs["exc"] = f"{type(e).__name__}: {e}"[:300]
         return obs
+    obs["seq"], obs["glued"] = sequence(full)
+    obs["cellseq"], obs["cellglued"] = sequence("\n".join(cells))
     obs["full"] = dict(Counter(find(full)))
     obs["units"] = dict(Counter(find("\n".join(units))))
     obs["cells"] = dict(Counter(find("\n".join(cells))))
@@ -129,6 +154,33 @@ def judge(tokens: dict, obs: dict) -> list[tuple[str, str]]:
     return out
 
 
+def judge_vs_ref(tokens: dict, obs: dict, ref: dict, absolute: list) -> tuple[list[tuple[str, str]], int]:
+    """Symptoms of an observation against the reference (same document, removable constructs deleted).
+
+    Returns (symptoms, number of adjacent visible pairs whose order / separation was compared)."""
+    vis = {t for t, c in tokens.items() if c in "bv"}
+    out, compared = [], 0
+    explained = any(s in ("following-text-lost", "preceding-text-lost", "duplicated") for s, _ in absolute)
+    for where, k_seq, k_glued in (("full text", "seq", "glued"), ("table cells", "cellseq", "cellglued")):
+        a = [t for t in obs[k_seq] if t in vis]
+        b = [t for t in ref[k_seq] if t in vis]
+        if Counter(a) != Counter(b):
+            if not explained:
+                d = sorted((Counter(a) - Counter(b)) + (Counter(b) - Counter(a)))
+                out.append(("placement-changed", f"{where}: {d[:3]} extracted {[a.count(x) for x in d[:3]]}x, without the removed markup {[b.count(x) for x in d[:3]]}x"))
+            continue
+        compared += max(len(a) - 1, 0)
+        if a != b:
+            i = next(i for i, (x, y) in enumerate(zip(a, b)) if x != y)
+            out.append(("reordered", f"{where}: visible tokens come out as {a[max(i - 1, 0):i + 3]}, without the removed markup as {b[max(i - 1, 0):i + 3]}"))
+        rg = {tuple(p) for p in ref[k_glued]}
+        g = [p for p in obs[k_glued] if p[0] in vis and p[1] in vis and tuple(p) not in rg]
+        if g:
+            out.append(("glued", f"{where}: {g[:2]} run together, without the removed markup they are apart"))
+    seen = set()
+    return [x for x in out if not (x[0] in seen or seen.add(x[0]))], compared
+
+
 # ------------------------------------------------------------------------------------------ case construction
 _XH = ('<?xml version="1.0" encoding="utf-8"?>\n<html xmlns="http://www.w3.org/1999/xhtml"><head><title>Ch</title></head>\n<body>\n',
        "\n</body></html>\n")
@@ -153,8 +205,9 @@ def carrier_params(rng, carrier: str) -> dict:
     return {}
 
 
-def build_cases(run, bodies) -> tuple[list[dict], dict]:
-    """One case per (body, carrier) (+ the control twin of a risky body).  Returns (cases, meta by cid)."""
+def build_cases(run, bodies, ref_share: float = 1.0) -> tuple[list[dict], dict]:
+    """One case per (body, carrier) (+ the control twin of a risky body, + the reference document: bodies with
+    ``want_ref`` always, the others with probability ``ref_share``).  Returns (cases, meta by cid)."""
     from vlib.gen import htmlgrammar as G
 
     rng = run.rng
@@ -162,13 +215,15 @@ def build_cases(run, bodies) -> tuple[list[dict], dict]:
     for bi, body in enumerate(bodies):
         doc = body.render()
         twin = body.render(benign=True) if body.risky else None
+        ref = body.render(strip=True) if (body.want_ref or rng.random() < ref_share) else None
         for carrier in (("epub",) if body.epub_only else CARRIERS):
             params = carrier_params(rng, carrier)
             tokens = dict(body.tokens)
-            d, t = doc, twin
+            d, t, rf = doc, twin, ref
             if carrier == "epub":
                 d = epub_doc(d, body.wrapper)
                 t = epub_doc(t, body.wrapper) if t else None
+                rf = epub_doc(rf, body.wrapper) if rf else None
                 if params.get("second"):
                     extra = f"qv{rng.randrange(90000, 99999):05d}z"
                     if extra in tokens:
@@ -177,7 +232,7 @@ def build_cases(run, bodies) -> tuple[list[dict], dict]:
                         tokens[extra] = "v"
                         params["second"] = _XH[0] + f"<p>{extra}</p>" + _XH[1]
             group = len(meta)
-            for role, dd in (("main", d), ("twin", t)):
+            for role, dd in (("main", d), ("twin", t), ("ref", rf)):
                 if dd is None:
                     continue
                 cid = len(meta)
@@ -204,7 +259,11 @@ def evaluate(run, bodies, cases, meta, results) -> None:
         m = meta[roles["main"]]
         body, carrier = bodies[m["body"]], m["carrier"]
         verdicts = {}
-        for role, cid in roles.items():
+        ref_obs = None
+        for role in ("ref", "main", "twin"):
+            if role not in roles:
+                continue
+            cid = roles[role]
             obs = results.get(cid)
             if obs is None or "_harness_error" in obs or obs.get("_startup"):
                 run.inconclusive_cases += 1
@@ -218,17 +277,28 @@ def evaluate(run, bodies, cases, meta, results) -> None:
                 verdicts[role] = None
                 continue
             syms = judge(meta[cid]["tokens"], obs)
+            if role == "ref":
+                if not syms:
+                    ref_obs = obs
+                    run.count(f"references_usable_{carrier}")
+            elif ref_obs is not None and "full" in obs:
+                more, compared = judge_vs_ref(meta[cid]["tokens"], obs, ref_obs, syms)
+                syms = syms + more
+                run.count(f"compared_with_reference_{carrier}")
+                run.count(f"adjacent_visible_pairs_compared_{carrier}", compared)
+                if role == "main" and any(f.startswith("pos:ctx-") for f in body.features):
+                    run.count(f"context_positions_compared_{carrier}")
             verdicts[role] = syms
             outcome = "+".join(s for s, _ in syms) or "ok"
             feats = sorted(body.features | ({"risky:" + body.risky} if body.risky and role == "main" else set()))
             run.case(f"{carrier}|{role}|{','.join(feats)}|{outcome}",
                      sample={"carrier": carrier, "role": role, "risky": body.risky, "doc": meta[cid]["doc"][:300], "outcome": outcome})
             run.count(f"cases_{carrier}")
-            if carrier == "msg":
+            if carrier == "msg" and role != "ref":
                 run.count("msg_looks_like_html_" + str(bool(obs.get("looks_like_html"))).lower())
             if carrier == "epub" and role == "main":
                 run.count("epub_chapter_wellformed_xml_" + str(G.is_wellformed_xml(meta[cid]["doc"])).lower())
-            if "full" in obs:
+            if "full" in obs and role != "ref":
                 tk = meta[cid]["tokens"]
                 present = set(obs["full"]) | set(obs["units"]) | set(obs["cells"])
                 for c in "bvru":
@@ -246,7 +316,11 @@ def evaluate(run, bodies, cases, meta, results) -> None:
             cid = roles[role]
             return {"carrier": carrier, "role": role, "doc": meta[cid]["doc"], "params": meta[cid]["params"], "tokens": meta[cid]["tokens"],
                     "risky": body.risky, "features": sorted(body.features),
-                    "twin_doc": meta[roles["twin"]]["doc"] if "twin" in roles else None, "recipe": body.recipe()}
+                    "twin_doc": meta[roles["twin"]]["doc"] if "twin" in roles else None,
+                    "ref_doc": meta[roles["ref"]]["doc"] if "ref" in roles else None, "recipe": body.recipe()}
+
+        for s_, _ in (verdicts.get("ref") or []):      # the reference holds no removable markup at all: a clean document
+            run.violation(f"C17:{carrier}:clean:{s_}", _what(body, carrier, "ref", meta[roles["ref"]]["doc"], verdicts["ref"], results[roles["ref"]]), rep("ref"))
 
         if body.risky is None:
             for s, _ in (main_syms or []):
@@ -278,7 +352,9 @@ def main(run) -> None:
                 "and its full text / unit texts / table cells were tokenised and compared with the body's ground truth")
     run.assumptions = [
         "inside/outside a removable element follows the HTML tokenisation rules where unambiguous; debatable constructs are not generated (list in vlib/gen/htmlgrammar.py docstring)",
-        "the visible skeleton is well-formed; malformed markup only occurs inside removable constructs",
+        "the visible skeleton is well-formed; malformed markup only occurs inside removable constructs, except in the unterminated-trailing-construct family where the input breaks off inside a comment / declaration / PI (closing tags cut, last paragraph or div left open) — twin and reference share the same broken-off skeleton",
+        "an input that ends inside an unterminated comment, declaration or processing instruction is comment to the end of input (HTML tokenisation): its tokens are hidden, nothing visible follows",
+        "order / separation / placement of visible text is only judged relative to the same document with the removable constructs deleted, never absolutely",
         "MSG path = msg_email_extractor._html_to_text called directly (no .msg container); EML/mbox return raw HTML and are out of scope",
         "the EPUB chapter parser is html.parser based (not XML), so the same tag-soup bodies are used; self-closed removable elements are judged in EPUB (XHTML) only",
         "risky constructs are placed at non-table positions only (inside table cells the same mechanisms also eat the cell end tag and show as other symptoms)",
@@ -287,7 +363,7 @@ def main(run) -> None:
         G.systematic_clean(rng),
         G.systematic_epub_only(rng),
         G.systematic_risky(rng),
-        G.random_clean(rng, run.n(1200, 30000)),
+        G.random_clean(rng, run.n(1100, 30000)),
         G.random_risky(rng, run.n(250, 8000)),
     ))
     for b in bodies:        # generator self-check: twin shares the ground truth, tokens are really in the document
@@ -295,7 +371,8 @@ def main(run) -> None:
         assert set(G.TOKEN_RE.findall(d)) == set(b.tokens), "generator: token table does not match document"
         if b.risky:
             assert set(G.TOKEN_RE.findall(b.render(benign=True))) == set(b.tokens) and b.render(benign=True) != d
-    cases, meta = build_cases(run, bodies)
+        assert set(G.TOKEN_RE.findall(b.render(strip=True))) == {t for t, c in b.tokens.items() if c != "r"}, "generator: reference document"
+    cases, meta = build_cases(run, bodies, run.n(0.15, 0.3))
     results = {}
     for case, obs in pool.run_cases("checks.c17:work", cases, deadline_s=40.0, rlimit_as=2 << 30):
         results[case["cid"]] = obs
@@ -308,6 +385,9 @@ def main(run) -> None:
         run.require(f"cases_{carrier}", c.get(f"cases_{carrier}", 0), run.n(800, 10000))
         run.require(f"visible_tokens_confirmed_present_{carrier}", c.get(f"visible_tokens_confirmed_present_{carrier}", 0), run.n(5000, 60000))
         run.require(f"hidden_tokens_confirmed_absent_{carrier}", c.get(f"hidden_tokens_confirmed_absent_{carrier}", 0), run.n(1500, 20000))
+        run.require(f"compared_with_reference_{carrier}", c.get(f"compared_with_reference_{carrier}", 0), run.n(400, 9000))
+        run.require(f"adjacent_visible_pairs_compared_{carrier}", c.get(f"adjacent_visible_pairs_compared_{carrier}", 0), run.n(3000, 50000))
+        run.require(f"context_positions_compared_{carrier}", c.get(f"context_positions_compared_{carrier}", 0), run.n(100, 1500))
         for name in G.NAMES:
             run.require(f"constructs_{name}@{carrier}", run.extras["constructs_per_carrier"].get(f"{name}@{carrier}", 0), 40)
         for f in G.RISKY:
@@ -317,7 +397,8 @@ def main(run) -> None:
     run.require("msg_bodies_that_look_like_html", c.get("msg_looks_like_html_true", 0), run.n(600, 8000))
     need = [f"pos:{p}" for p in G.POSITIONS] + [f"attr:{a}" for a in G.ATTR_KINDS] + [f"case:{k}" for k in G.CASE_KINDS] + \
            [f"close:{k}" for k in G.CLOSE_KINDS] + [f"c:raw:{k}" for k in G.RAW_KINDS] + [f"c:normal:{k}" for k in G.NORMAL_KINDS] + \
-           [f"c:comment:{k}" for k in G.COMMENT_KINDS] + [f"c:embed:{k}" for k in G.EMBED_KINDS] + ["c:normal:selfclosed-removable"]
+           [f"c:comment:{k}" for k in G.COMMENT_KINDS] + [f"c:embed:{k}" for k in G.EMBED_KINDS] + ["c:normal:selfclosed-removable"] + \
+           [f"tail:{k}" for k in G.TAIL_KINDS] + [f"trunc:{k}" for k in G.TRUNC_KINDS]
     missing = [f for f in need if run.extras["features"].get(f, 0) < 4]
     run.require("grammar_features_covered", len(need) - len(missing), len(need))
     if missing:
@@ -334,16 +415,26 @@ def replay(run, doc: dict) -> None:
     cases = [{"cid": 0, "carrier": c["carrier"], "doc": c["doc"], "params": c.get("params", {})}]
     if c.get("twin_doc") and c.get("role") == "main":
         cases.append({"cid": 1, "carrier": c["carrier"], "doc": c["twin_doc"], "params": c.get("params", {})})
+    if c.get("ref_doc") and c.get("role") != "ref":
+        cases.append({"cid": 2, "carrier": c["carrier"], "doc": c["ref_doc"], "params": c.get("params", {})})
     res = {}
     for case, obs in pool.run_cases("checks.c17:work", cases, workers=1, deadline_s=40.0):
         res[case["cid"]] = obs
     print("document:\n" + c["doc"])
+    ref = res.get(2) if 2 in res and "_harness_error" not in res[2] and judge(c["tokens"], res[2]) == [] else None
+
+    def full_judge(obs):
+        syms = judge(c["tokens"], obs)
+        if ref is not None and "full" in obs:
+            syms = syms + judge_vs_ref(c["tokens"], obs, ref, syms)[0]
+        return syms
+
     for cid, obs in sorted(res.items()):
-        syms = judge(c["tokens"], obs) if "_harness_error" not in obs else [("harness", str(obs))]
-        print(f"--- {'recorded case' if cid == 0 else 'control twin'}: symptoms={syms}\n    output excerpt: {obs.get('excerpt', '')!r}")
+        syms = (judge(c["tokens"], obs) if cid == 2 else full_judge(obs)) if "_harness_error" not in obs else [("harness", str(obs))]
+        print(f"--- {('recorded case', 'control twin', 'reference (removable markup deleted)')[cid]}: symptoms={syms}\n    output excerpt: {obs.get('excerpt', '')!r}")
         run.case(f"replay|{cid}")
         if cid == 0:
-            twin_dirty = 1 in res and judge(c["tokens"], res[1])
-            feature = "clean" if not c.get("risky") or c.get("role") == "twin" else (c["risky"] + ("+twin-not-clean" if twin_dirty else ""))
+            twin_dirty = 1 in res and "_harness_error" not in res[1] and full_judge(res[1])
+            feature = "clean" if not c.get("risky") or c.get("role") in ("twin", "ref") else (c["risky"] + ("+twin-not-clean" if twin_dirty else ""))
             for s, why in syms:
                 run.violation(f"C17:{c['carrier']}:{feature}:{s}", why, c)
